@@ -716,9 +716,13 @@ def run(rep, tier, replay):
     terms = terms[:6 if quick else 36]
     # every command class of the specification must be exercised: add a shortest script for any class the
     # walks of this run do not contain
-    planned = {e["cmd"]["label"] for p in segs + terms for e in p}
+    # (only the first commands of a walk are certain to run before the deadline on a loaded machine)
+    planned = {e["cmd"]["label"] for p in segs for e in p[:300]} | {e["cmd"]["label"] for p in terms for e in p}
     extra = []
-    for lab in sorted(CORE_LABELS - planned):
+    deep_first = ["restart_after_exit", "add_refused_notstarted", "cont_exit", "cont_thread_exit", "cont_clone"]
+    for lab in deep_first + sorted(CORE_LABELS - set(deep_first)):
+        if lab in planned:
+            continue
         for x in g.e:
             x["blocked"] = False
         has = lambda n, lab=lab: any(e["cmd"]["label"] == lab for e in g.out[n])
@@ -727,12 +731,14 @@ def run(rep, tier, replay):
             raise vlib.ToolError(f"command class {lab} does not occur in the generation graph")
         last = p[-1]["d"] if p else g.init
         extra.append(p + [next(e for e in g.out[last] if e["cmd"]["label"] == lab)])
-    scripts = [(f"w{i}", script_of(p)) for i, p in enumerate(segs)] + \
-              [(f"c{i}", script_of(p)) for i, p in enumerate(extra)] + \
-              [(f"t{i}", script_of(p)) for i, p in enumerate(terms)]
+        planned |= {e["cmd"]["label"] for e in extra[-1]}
+    # short scripts first: they carry the listed defects and the rare command classes
+    scripts = [(f"c{i}", script_of(p)) for i, p in enumerate(extra)] + \
+              [(f"t{i}", script_of(p)) for i, p in enumerate(terms)] + \
+              [(f"w{i}", script_of(p)) for i, p in enumerate(segs)]
     vlib.log(f"[plan] {len(g.out)} nodes {len(g.e)} edges; {len(segs)} walks ({sum(map(len, segs))} commands, "
              f"{len(covered)} distinct edges) + {len(terms)} terminal scripts; {time.time() - t0:.0f}s so far")
-    res = run_jobs(exe, job_base(puppet, lines), scripts, workers, 100 if quick else 1000)
+    res = run_jobs(exe, job_base(puppet, lines), scripts, workers, 90 if quick else 1000)
     bgt.join()
     if isinstance(bg["r"], Exception):
         raise bg["r"]
@@ -768,8 +774,7 @@ def run(rep, tier, replay):
     for m in mism + cmpr.side:
         record(rep, dict(m))
     # ---- consistency between the as-written model and the code
-    real_orphan = any(m["class"] == "refused_request_side_effect" and "companion_int3_left" in m["side_effect"]
-                      for m in mism)
+    real_orphan = any("add_refused_limit_scoped" in (m["action"], m.get("prev_action")) for m in mism)
     notes = []
     if cmpr.labels.get("add_refused_limit_scoped", 0) and bool(W.violated == "NoOrphanCompanion") != real_orphan:
         msg = (f"as-written implementation model: {W.violated or 'no violation'}; real code: "
